@@ -1,0 +1,18 @@
+//go:build verif
+
+package consul
+
+import "github.com/hashicorp/consul/api"
+
+// Verification hooks (build tag verif). Add-only; see /verif/MANIFEST.json.
+
+// VerifPassingServices applies the tag-prefix filter and the health filter
+// exactly as ServiceMonitor.Watch does.
+func VerifPassingServices(prefix string, checks api.HealthChecks, status []string, strict bool) []*api.HealthCheck {
+	return passingServices(checksWithTagPrefix(prefix, checks), status, strict)
+}
+
+// VerifRouteCmds returns the route commands derived from one catalog entry.
+func VerifRouteCmds(svc *api.CatalogService, prefix string, env map[string]string) []string {
+	return routecmd{svc: svc, prefix: prefix, env: env}.build()
+}
